@@ -210,6 +210,7 @@ def run_verus(prop, tier, seed=0, repo=None):
     for u in mine:
         t0 = time.time()
         g = Gen(u, repo)
+        g.tier = tier
         try:
             u.generate(g, extract)
         except extract.LostAnchor as e:
